@@ -81,8 +81,17 @@ Definition predicted (c : case) : obs :=
          | None => []
          end).
 
+(* the value of r's own condition (before global-rule suppression) *)
+Definition raw_verdict (c : case) : bool :=
+  nth (length (c_core c) - 1)%nat
+      (verdicts (fun e => e) (c_data c) (c_globals c) (c_fast_model c) (c_core c)) false.
+
+(* K compares the reported matches only when r's condition holds: the
+   compiler derives filesize bounds and header constraints from the
+   condition and does not search the patterns of a rule that cannot match
+   [undocumented], so for a false condition fewer matches may be reported *)
 Definition check_case (c : case) : bool :=
   let p := predicted c in
-  obs_eqb (c_matches_compared c)
+  obs_eqb (c_matches_compared c && raw_verdict c)
           (mkObs (o_verdict p) (blank (c_anchor c) (o_matches p)))
           (mkObs (o_verdict (c_warm c)) (blank (c_anchor c) (o_matches (c_warm c)))).
